@@ -321,7 +321,7 @@ func (k kcfg) String() string {
 }
 
 type sideView struct {
-	rtpCb, rtcpCb                                  int64
+	rtpCb, rtcpCb                               int64
 	inBytes, rtpPkts, rtcpPkts, rtpErr, rtcpErr uint64
 }
 
